@@ -740,6 +740,14 @@ func (fr *Frame) callCommon(cc *ssa.CallCommon, args []Val, fv Val, res ssa.Valu
 		all := append([]Val{recv}, args...)
 		fr.assertAtCall(name, all, cc.Signature())
 		fr.effectCheckCallee(nil, name)
+		// a contract given for the static interface type of the receiver (e.g. (hash.Hash).Write) takes precedence
+		// over one for the interface that declares the method ((io.Writer).Write)
+		if sname := "(" + cc.Value.Type().String() + ")." + cc.Method.Name(); sname != name {
+			if sp := e.specs.Funcs[sname]; sp != nil {
+				sp.Used = true
+				return fr.applyContract(sp, sname, cc.Method.Type().(*types.Signature), all, true, resT)
+			}
+		}
 		if sp := e.specs.Funcs[name]; sp != nil {
 			sp.Used = true
 			return fr.applyContract(sp, name, cc.Method.Type().(*types.Signature), all, true, resT)
